@@ -24,7 +24,7 @@ def draw_steps(rnd):
 def draw_adapter(rnd, kinds):
     k = rnd.choice(kinds)
     if k == "dfix":
-        return ["dfix", rnd.choice([0, 1, 2, 4, 9, 13])]
+        return ["dfix", rnd.choice([0, 1, 2, 4, 9, 13])] + (["user"] if rnd.random() < 0.25 else [])
     if k == "dpull":
         return ["dpull", rnd.choice([1, 2, 3]), rnd.choice([0, 0, 1, 3])]
     if k == "step":
@@ -77,7 +77,7 @@ def delay_chain(rnd, total, allow_push=True):
     for v in vals:
         if rnd.random() < 0.3:
             chain.append([rnd.choice(PASS)])
-        chain.append(["dfix", v])
+        chain.append(["dfix", v] + (["user"] if rnd.random() < 0.25 else []))  # "user": written from the public interfaces only
     if rnd.random() < 0.3:
         chain.append([rnd.choice(PASS)])
     return chain
@@ -270,6 +270,11 @@ def gen_ring(rnd, klass=None, pull_prob=0.2, meta_cycle=False):
     if rnd.random() < 0.3:
         comps.append(dict(name=f"c{n}", type="time", start=0, steps=[rnd.choice(pool)], nin=0, nout=1, initial_pull=rnd.random() < 0.5))
         edges.append((rnd.randrange(n), n))
+    if rnd.random() < 0.3:
+        # a feeder: reads nothing, feeds one ring member (it can always connect, whatever happens to the ring)
+        k = len(comps)
+        comps.append(dict(name=f"c{k}", type="time", start=0, steps=[rnd.choice(pool)], nin=0, nout=1, initial_pull=False))
+        edges.append((k, rnd.randrange(n)))
     cycles = simple_cycles(edges)
     klass = klass or rnd.choice(["none", "sufficient", "between"])
     maxstep = [max(c["steps"]) for c in comps]
@@ -418,3 +423,21 @@ def gen_dpull_ring(rnd):
     rnd.shuffle(link_order)
     return dict(comps=comps, links=links, order=order, link_order=link_order, start=0, end=rnd.choice([15, 30]),
                 meta=dict(klass="dpull_ring", expect="ok", n_ring=2, cycles=1, n_pull=0))
+
+
+def gen_branching(rnd):
+    """one output feeding (a) a trunk of pass-through adapters that fans out to two consumers and (b) a third
+    consumer through a no-branch (time interpolation) adapter: only the order of link creation varies"""
+    st = lambda: [rnd.choice([1, 2, 3])]
+    comps = [dict(name="c0", type="time", start=0, steps=st(), nin=0, nout=1, initial_pull=True)]
+    comps += [dict(name=f"c{k}", type="time", start=0, steps=st(), nin=1, nout=1, initial_pull=rnd.random() < 0.7) for k in (1, 2, 3)]
+    trunks = {"0": dict(src=["c0", 0], chain=[["scale"]] + ([["probe"]] if rnd.random() < 0.4 else []))}
+    links = [dict(src=["c0", 0], dst=["c1", 0], chain=[], trunk="0"),
+             dict(src=["c0", 0], dst=["c2", 0], chain=[["scale"]] if rnd.random() < 0.5 else [], trunk="0"),
+             dict(src=["c0", 0], dst=["c3", 0], chain=[[rnd.choice(["lin", "next", "prev", "step"])]] + ([["scale"]] if rnd.random() < 0.3 else []))]
+    order = list(range(4))
+    rnd.shuffle(order)
+    link_order = list(range(3))
+    rnd.shuffle(link_order)
+    return dict(comps=comps, links=links, trunks=trunks, order=order, link_order=link_order, start=0, end=rnd.choice([6, 12]),
+                meta=dict(n_time=4, cyclic=False, n_pull=0, n_trunks=1, klass="branching"))
